@@ -7,3 +7,12 @@ pub struct ExPermissions(std::fs::Permissions);
 
 pub assume_specification[ <std::fs::Permissions as Clone>::clone ](p: &std::fs::Permissions) -> (r: std::fs::Permissions)
     ensures r == *p;
+
+// R4-type: `Cow<'a, Path>` is rewritten to the opaque `PathCow<'a>` (Verus' trait-conflict checker rejects
+// `Cow<Path>`); the functions of this unit only test such values for Some/None and move them around.
+#[verifier::external_body]
+pub struct PathCow<'a> { _p: &'a () }
+impl<'a> Clone for PathCow<'a> {
+    #[verifier::external_body]
+    fn clone(&self) -> (r: Self) ensures r == *self { unimplemented!() }
+}
